@@ -19,7 +19,9 @@
 EXTENDS Integers, Sequences, FiniteSets, TLC, Json
 
 CONSTANTS Pieces, Restarts,
-          AllNumberings     \* TRUE: new streams of one import may be numbered in any order
+          AllNumberings,    \* TRUE: new streams of one import may be numbered in any order
+          LookupEveryOldPacket  \* TRUE as in the code; FALSE = "look up only the very first packet of the stream"
+                                \* (a seeded design fault: the properties below must reject it - ImportMC_fault.cfg)
 
 VARIABLES world,      \* the pieces (constant along a behaviour; a variable so that trace validation
                       \* can bind it to the world of each recorded schedule)
@@ -61,7 +63,7 @@ Classify(fs, known, B, c) ==
                  ELSE IF k \in B
                       THEN IF p.id # NoId THEN [p EXCEPT !.touched = TRUE, !.cat = "updated", !.stop = TRUE]
                                           ELSE [p EXCEPT !.touched = TRUE]
-                      ELSE IF p.id # NoId THEN p
+                      ELSE IF p.id # NoId \/ (~LookupEveryOldPacket /\ i # 1) THEN p
                            ELSE LET id == Lookup(fs, c, k) IN
                                 IF p.touched THEN [p EXCEPT !.id = id, !.cat = "reset", !.stop = TRUE]
                                              ELSE [p EXCEPT !.id = id]
